@@ -34,6 +34,9 @@ pub struct ActorScen {
     /// C07: histories biased to capability imports while documents are open; only the replies to
     /// writes, deletions, secret export and imports are judged
     pub cap_focus: bool,
+    /// C16: histories biased to open / close / drop / re-import; only the replies that show
+    /// whether a removal was refused or went through are judged
+    pub removal_focus: bool,
 }
 
 #[derive(Serialize, Deserialize, Clone, Debug)]
@@ -156,7 +159,7 @@ struct Stream {
 impl Scenario for ActorScen {
     type Plan = ActorPlan;
     fn name(&self) -> String {
-        if self.cap_focus { "actor-capability".into() } else { "actor".into() }
+        if self.cap_focus { "actor-capability".into() } else if self.removal_focus { "actor-removal".into() } else { "actor".into() }
     }
 
     fn gen(&self, rng: &mut Rng, tier: Tier) -> ActorPlan {
@@ -173,6 +176,8 @@ impl Scenario for ActorScen {
             let roll = if self.cap_focus {
                 // imports, opens/closes, writes, deletions, secret export dominate
                 *rng.pick(&[0u64, 1, 2, 6, 12, 13, 14, 15, 18, 36, 36, 36, 36, 37, 37, 20, 33, 38, 39])
+            } else if self.removal_focus {
+                *rng.pick(&[0u64, 1, 2, 3, 6, 7, 12, 13, 26, 33, 34, 36, 38, 38, 38, 38, 39])
             } else {
                 rng.below(40)
             };
@@ -191,7 +196,7 @@ impl Scenario for ActorScen {
                 33..=35 => Req::GetState { d },
                 36 => Req::Import { d, write: rng.chance(1, 2) },
                 37 => Req::ExportSecret { d },
-                38 => if rng.chance(1, 3) { Req::Drop { d } } else { Req::Flush },
+                38 => if rng.chance(1, 3) || self.removal_focus { Req::Drop { d } } else { Req::Flush },
                 _ => if i > n / 2 && rng.chance(1, 3) { Req::Shutdown } else { Req::Flush },
             };
             if matches!(req, Req::Shutdown) {
@@ -218,7 +223,7 @@ impl Scenario for ActorScen {
     }
 
     fn exec(&self, plan: &ActorPlan, cx: &mut Cx) -> Res {
-        block_on_sim(plan.seed, run(plan, cx, self.cap_focus))
+        block_on_sim(plan.seed, run(plan, cx, self.cap_focus, self.removal_focus))
     }
 
     fn shrink(&self, plan: &ActorPlan) -> Vec<ActorPlan> {
@@ -492,8 +497,16 @@ fn model_apply(m: &mut [MDoc], req: &Req, clock: u64, alive: &mut bool, stream_e
     }
 }
 
-fn check_reply_focus(idx: usize, req: &Req, expect: &Expect, reply: Reply, cap_focus: bool) -> Res<Option<iroh_docs::store::Store>> {
-    if cap_focus && !matches!(req, Req::InsertLocal { .. } | Req::DeletePrefix { .. } | Req::ExportSecret { .. } | Req::Import { .. } | Req::Shutdown) {
+fn check_reply_focus(idx: usize, req: &Req, expect: &Expect, reply: Reply, focus: (bool, bool)) -> Res<Option<iroh_docs::store::Store>> {
+    let (cap_focus, removal_focus) = focus;
+    let judged = if cap_focus {
+        matches!(req, Req::InsertLocal { .. } | Req::DeletePrefix { .. } | Req::ExportSecret { .. } | Req::Import { .. } | Req::Shutdown)
+    } else if removal_focus {
+        matches!(req, Req::Drop { .. } | Req::Open { .. } | Req::GetState { .. } | Req::InsertLocal { .. } | Req::GetExact { .. } | Req::Import { .. } | Req::Shutdown)
+    } else {
+        true
+    };
+    if !judged {
         // not judged in capability mode; still hand back the store of a shutdown
         return Ok(match reply {
             Reply::Store(Ok(s)) => Some(s),
@@ -581,7 +594,9 @@ fn finish_stream(s: &Stream) -> Res {
     Ok(())
 }
 
-async fn run(plan: &ActorPlan, cx: &mut Cx, cap_focus: bool) -> Res {
+async fn run(plan: &ActorPlan, cx: &mut Cx, cap_focus: bool, removal_focus: bool) -> Res {
+    let focus = (cap_focus, removal_focus);
+    let cap_focus = cap_focus || removal_focus; // neither mode judges streams or the returned store
     let w = world();
     let mut sut = Sut::new(plan.backend)?;
     let mut m: Vec<MDoc> = vec![MDoc::default(); crate::world::N_DOCS];
@@ -608,8 +623,39 @@ async fn run(plan: &ActorPlan, cx: &mut Cx, cap_focus: bool) -> Res {
         match step {
             AStep::Send { client, req } | AStep::SendDropReply { client, req } => {
                 let drop_reply = matches!(step, AStep::SendDropReply { .. });
-                if matches!(req, Req::Drop { d } if m[*d as usize].handles > 1) {
-                    continue;
+                if let (Req::Drop { d }, true) = (req, alive) {
+                    if m[*d as usize].handles > 1 {
+                        // Removal while other handles hold the document open must be refused. The
+                        // statement does not say whether the refused request still releases the
+                        // caller's handle, so the count is read back afterwards (h or h-1).
+                        barrier().await;
+                        for p in pending.drain(..) {
+                            let Pending { idx, req, mut fut, expect } = p;
+                            let reply = match poll_once(&mut fut) {
+                                Poll::Ready(r) => r,
+                                Poll::Pending => match tokio::time::timeout(Duration::from_secs(30), fut).await {
+                                    Ok(r) => r,
+                                    Err(_) => return Err(Violation::new(format!("hang/{}", req_name(&req)), format!("request #{idx} {req:?} got no reply within 30 virtual seconds"))),
+                                },
+                            };
+                            if let Some(st) = check_reply_focus(idx, &req, &expect, reply, focus)? {
+                                returned = Some(st);
+                            }
+                        }
+                        idx += 1;
+                        let before = m[*d as usize].handles;
+                        let r = h.drop_replica(world().doc_id(*d)).await;
+                        cx.ev("send", format!("c{client} #{idx} {req:?} (handles {before}) -> ok={}", r.is_ok()));
+                        cx.probe("drop_while_other_handles_open");
+                        if r.is_ok() {
+                            return Err(Violation::new("reply/drop", format!("request #{idx}: the document was removed although {before} handles hold it open")));
+                        }
+                        match h.get_state(world().doc_id(*d)).await {
+                            Ok(st) if st.handles == before || st.handles + 1 == before => m[*d as usize].handles = st.handles,
+                            other => return Err(Violation::new("reply/get-state", format!("after a refused removal with {before} handles the document reports {other:?}"))),
+                        }
+                        continue;
+                    }
                 }
                 idx += 1;
                 let mut stream_expect = None;
@@ -632,7 +678,7 @@ async fn run(plan: &ActorPlan, cx: &mut Cx, cap_focus: bool) -> Res {
                 match poll_once(&mut fut) {
                     Poll::Ready(reply) => {
                         // completes at once only if the request could not be sent (actor stopped) or needs no reply
-                        if let Some(st) = check_reply_focus(idx, req, &expect, reply, cap_focus)? {
+                        if let Some(st) = check_reply_focus(idx, req, &expect, reply, focus)? {
                             returned = Some(st);
                         }
                     }
@@ -668,7 +714,7 @@ async fn run(plan: &ActorPlan, cx: &mut Cx, cap_focus: bool) -> Res {
                     };
                     let _ = (i, &mut order_ok);
                     cx.ev("reply", format!("#{idx} {}", match &reply { Reply::Store(_) => "store".to_string(), r => format!("{r:?}").chars().take(80).collect() }));
-                    if let Some(st) = check_reply_focus(idx, &req, &expect, reply, cap_focus)? {
+                    if let Some(st) = check_reply_focus(idx, &req, &expect, reply, focus)? {
                         returned = Some(st);
                     }
                 }
